@@ -269,9 +269,14 @@ fn check(id: &str, tier: Tier) -> i32 {
     // a family that was never reached because the time budget ran out is a cap (reported as such), not a
     // defect of the machinery: the coverage self-checks of the property are then notes in the evidence
     let budget_hit = rep.caps.iter().any(|c| c.contains("time budget"));
+    // the same when the parser turned away packets the policy accepts (C02 reports those): the packets this
+    // check wanted to look at never became objects, which is the subject's doing, not the machinery's
+    let parser_refused = rep.classes.keys().any(|k| k.contains("parser_rejected"));
     for v in (def.post)(&rep, tier) {
         if budget_hit {
             rep.notes.push(format!("not reached within the time budget: {}", v));
+        } else if parser_refused && def.id != "C02" && def.id != "C01" {
+            rep.notes.push(format!("not covered because the parser rejected well-formed packets (see C02): {}", v));
         } else {
             machinery_fail.push(format!("vacuity self-check: {}", v));
         }
